@@ -10,7 +10,7 @@ units of 1/4096 (the harness only uses multiples of 1/64 of small magnitude, for
 its exact inverse, see harness/cont_common.py).  A radius is an `Int` in units of 1/64 and is
 compared squared.
 
-The model follows the code after the repairs S3, S20 (legacy) and S17, S18, S19 (experimental).
+The model follows the code after the repairs S3, S20, CS1 (legacy) and S17, S18, S19, CS2 (experimental).
 numpy's `argpartition` is a parameter (`argpart`) of the k-nearest functions; the theorems
 assume only its documented post-condition.
 -/
@@ -25,6 +25,7 @@ inductive Err where
   | index    -- IndexError
   | value    -- ValueError (argpartition: kth out of bounds)
   | type     -- TypeError (arithmetic on a `None` position)
+  | attr     -- AttributeError (`agent.space` is `None` after `agent.remove()`)
 deriving Repr, DecidableEq
 
 /-- `abs` -/
@@ -230,10 +231,12 @@ structure ESpace where
   active : List Aid         -- active_agents
   a2i : Aid → Option Nat    -- _agent_to_index
   i2a : Nat → Option Aid    -- _index_to_agent (never read by the code)
+  gone : Aid → Bool         -- agent objects whose `space` attribute is `None` (after `agent.remove()`)
 
 /-- uninitialised rows (`np.empty`) are modelled by the empty vector -/
 def einit (c : ECfg) (cap : Nat) : ESpace :=
-  { cfg := c, buf := fun _ => [], cap := cap, n := 0, active := [], a2i := fun _ => none, i2a := fun _ => none }
+  { cfg := c, buf := fun _ => [], cap := cap, n := 0, active := [], a2i := fun _ => none, i2a := fun _ => none,
+    gone := fun _ => false }
 
 /-- number of rows of the view `agent_positions = _agent_positions[0:_n_agents]` -/
 def ESpace.view (s : ESpace) : Nat := min s.n s.cap
@@ -359,6 +362,53 @@ def nearestNeighbors (argpart : List Int → Nat → List Nat) (s : ESpace) (a :
     | .error e => .error e
     | .ok res => .ok (res.filter (fun ad => ad.1 ≠ a))
 
+/-! ### the agent-level API
+Every `ContinuousSpaceAgent` method first goes through `self.space`, which `remove()` sets to `None`:
+on a removed agent object each of them raises `AttributeError` before anything else happens. -/
+
+/-- `agent.position` (getter; after repair CS2 the row is returned as a copy) -/
+def agentGet (s : ESpace) (a : Aid) : Except Err Pos := if s.gone a then .error .attr else getPos s a
+
+/-- `agent.position = value` -/
+def agentSet (s : ESpace) (a : Aid) (p : Pos) : Except Err ESpace :=
+  if s.gone a then .error .attr else setPos s a p
+
+/-- `agent.remove()`: `Agent.remove` (deregistration from the model, idempotent), `space._remove_agent(self)`,
+    then `self.space = None` -/
+def agentRemove (s : ESpace) (a : Aid) : Except Err ESpace :=
+  if s.gone a then .error .attr
+  else match removeAgent s a with
+    | .error e => .error e
+    | .ok s' => .ok { s' with gone := upd s'.gone a true }
+
+/-- `agent.get_neighbors_in_radius(r)` -/
+def agentNir (s : ESpace) (a : Aid) (r : Int) : Except Err (List (Aid × Int)) :=
+  if s.gone a then .error .attr else neighborsInRadius s a r
+
+/-- `agent.get_nearest_neighbors(k)` -/
+def agentNn (argpart : List Int → Nat → List Nat) (s : ESpace) (a : Aid) (k : Nat) :
+    Except Err (List (Aid × Int)) :=
+  if s.gone a then .error .attr else nearestNeighbors argpart s a k
+
+/-- component-wise sum (`ndarray.__iadd__`) -/
+def vadd : Pos → Pos → Pos
+  | x :: xs, y :: ys => (x + y) :: vadd xs ys
+  | _, _ => []
+
+/-- `agent.position += v`: the getter (a copy of the row), `+=` on that copy, then the setter with the sum —
+    so the sum is validated / wrapped like any assigned value before anything is written -/
+def agentIadd (s : ESpace) (a : Aid) (v : Pos) : Except Err ESpace :=
+  match agentGet s a with
+  | .error e => .error e
+  | .ok p => agentSet s a (vadd p v)
+
+/-- `agent.position[j] = x`: a write into the copy the getter returned; the space is not involved
+    (the result type has no state) -/
+def agentPoke (s : ESpace) (a : Aid) (j : Nat) : Except Err Unit :=
+  match agentGet s a with
+  | .error e => .error e
+  | .ok p => if j < p.length then .ok () else .error .index
+
 /-- rows selected by `agents=[…]`: `_agent_positions[[_agent_to_index[a] for a in agents]]` -/
 def rowsOf (s : ESpace) (sub : List Aid) : Except Err (List (Aid × Pos)) :=
   match collect (sub.map (fun a => (s.a2i a).map (fun i => (a, i)))) with
@@ -381,14 +431,17 @@ inductive EOp where
   | new (a : Aid)
   | set (a : Aid) (p : Pos)
   | remove (a : Aid)
+  | iadd (a : Aid) (v : Pos)
 deriving Repr, DecidableEq
 
 /-- state after one call.  Agent objects are created fresh by the constructor, so `new a`
-    for an agent that is in the space has no counterpart in the code and is ignored. -/
+    for an agent object that exists already (in the space or removed) has no counterpart in the
+    code and is ignored. -/
 def estep (s : ESpace) : EOp → ESpace
-  | .new a => if (s.a2i a).isSome then s else addAgent s a
-  | .set a p => match setPos s a p with | .ok s' => s' | .error _ => s
-  | .remove a => match removeAgent s a with | .ok s' => s' | .error _ => s
+  | .new a => if (s.a2i a).isSome || s.gone a then s else addAgent s a
+  | .set a p => match agentSet s a p with | .ok s' => s' | .error _ => s
+  | .remove a => match agentRemove s a with | .ok s' => s' | .error _ => s
+  | .iadd a v => match agentIadd s a v with | .ok s' => s' | .error _ => s
 
 def erun (c : ECfg) (cap : Nat) (ops : List EOp) : ESpace := ops.foldl estep (einit c cap)
 
